@@ -205,6 +205,36 @@ def _prune_correlated(fn: FunctionInfo, rd: "ReachingDefs", defs: List[Def], at:
             if not dead:
                 kept.append(d)
         defs = kept or defs
+    # identity facts: `if cfg is value:` -- where the two are known to be different objects the definition `cfg = value` is
+    # dead, where they are known to be the same object the definition `cfg = Fresh()` is (value: never re-bound in between)
+    ident = []
+    for t, lbl in dominating_tests(fn, at):
+        c = t.ast
+        if isinstance(c, ast.Compare) and len(c.ops) == 1 and isinstance(c.ops[0], (ast.Is, ast.IsNot)) and isinstance(c.left, ast.Name) \
+                and isinstance(c.comparators[0], ast.Name):
+            same = isinstance(c.ops[0], ast.Is) == bool(lbl)
+            ident.append((c.left.id, c.comparators[0].id, same, t))
+            ident.append((c.comparators[0].id, c.left.id, same, t))
+    if ident:
+        kept = []
+        for d in defs:
+            dead = False
+            for a, b, same, t in ident:
+                if d.name != a or d.kind != "assign" or d.node is None or d.value is None:
+                    continue
+                if not any(x is d for x in rd.reaching(t, a)):
+                    continue
+                b_then = {id(x) for x in rd.reaching(d.node, b)}
+                b_test = {id(x) for x in rd.reaching(t, b)}
+                if b_then != b_test:
+                    continue
+                if not same and isinstance(d.value, ast.Name) and d.value.id == b:
+                    dead = True
+                if same and isinstance(d.value, ast.Call) and all(x.kind == "param" for x in rd.reaching(t, b)):
+                    dead = True
+            if not dead:
+                kept.append(d)
+        defs = kept or defs
     if not facts:
         return defs
     keep = []
